@@ -55,6 +55,8 @@ pub struct Stats {
     pub embed_run: u64,
     pub caplaw_run: u64,
     pub samples: Vec<String>,
+    /// order-independent digest (wrapping sum of hashes) of every tagged mismatch
+    pub mismatch_digest: u64,
 }
 
 impl Stats {
@@ -74,6 +76,7 @@ impl Stats {
         for (k, v) in &o.tags {
             *self.tags.entry(k.clone()).or_default() += v;
         }
+        self.mismatch_digest = self.mismatch_digest.wrapping_add(o.mismatch_digest);
         self.drift += o.drift;
         for s in &o.drift_samples {
             if self.drift_samples.len() < 5 {
@@ -144,6 +147,12 @@ impl Ctx {
     fn report(&mut self, tags: Tags, entry: u8, context: &str, line: &str) {
         for (p, m) in tags {
             *self.stats.tags.entry(p.to_string()).or_default() += 1;
+            let mut h: u64 = 0xcbf29ce484222325;
+            for b in p.bytes().chain(m.bytes()).chain(context.bytes()).chain(line.bytes()).chain([entry].into_iter()) {
+                h ^= b as u64;
+                h = h.wrapping_mul(0x100000001b3);
+            }
+            self.stats.mismatch_digest = self.stats.mismatch_digest.wrapping_add(h);
             if self.violations.len() < self.max_violations {
                 self.violations.push(Violation { prop: p, msg: m, entry: ENTRY_NAMES[entry as usize], context: context.to_string(), line: line.to_string() });
             }
@@ -198,6 +207,30 @@ impl Ctx {
             self.report(tags, entry, "placement=End", line);
         }
         self.drift(drift, line);
+
+        // ---- the code went on where the specification had already rejected: try to bring the
+        // parse to an end with generic tails and judge what it then hands out (C04 / C05 are
+        // judged on the observation alone)
+        if v.st == ST_E && base.st == ST_P && v.kind != K_CHUNK {
+            const TAILS: [&[u8]; 7] = [b" / HTTP/1.1\r\n\r\n", b" HTTP/1.1\r\n\r\n", b"\r\n\r\n", b": x\r\n\r\n", b"\n\n", b" 200 OK\r\n\r\n", b"x\r\n\r\n"];
+            for tail in TAILS.iter() {
+                let mut b2 = v.buf.clone();
+                b2.extend_from_slice(tail);
+                let p2 = self.arena2.place(&b2, Place::End);
+                let p2: &[u8] = unsafe { std::slice::from_raw_parts(p2.as_ptr(), p2.len()) };
+                let o = run(entry, v.cfg, p2, cap + 4);
+                self.stats.observations += 1;
+                if o.st == ST_C && !o.panicked {
+                    let mut t = Tags::new();
+                    judge_zero_copy(v, &o, p2, &mut t);
+                    judge_hygiene(v, &o, p2, &mut t);
+                    if !t.is_empty() {
+                        self.report(t, entry, &format!("continued with {:?}", String::from_utf8_lossy(tail)), line);
+                    }
+                    break;
+                }
+            }
+        }
 
         // ---- other placements
         if modes & (M_PLACES | M_ALIGN_ALL) != 0 {
